@@ -53,9 +53,13 @@ func (w *WaterMark) Init(closer *Closer) {
 
 // Begin sets the last index to the given value.
 func (w *WaterMark) Begin(index uint64) {
-	w.setLastIndex(index)
-	verifhook.Yield(w, "wm.begin.published")
+	// Count the index as pending before publishing it as lastIndex: tryAdvance
+	// only looks at slots up to lastIndex, so a concurrent Done can no longer
+	// move doneUntil past an index whose Begin is still in progress.
 	w.addIndex(index, 1)
+	verifhook.Yield(w, "wm.begin.published")
+	w.setLastIndex(index)
+	w.tryAdvance()
 }
 
 // BeginMany works like Begin but accepts multiple indices.
@@ -63,11 +67,12 @@ func (w *WaterMark) BeginMany(indices []uint64) {
 	if len(indices) == 0 {
 		return
 	}
-	w.setLastIndex(indices[len(indices)-1])
 	for _, idx := range indices {
 		verifhook.Yield(w, "wm.beginmany.next")
 		w.addIndex(idx, 1)
 	}
+	w.setLastIndex(indices[len(indices)-1])
+	w.tryAdvance()
 }
 
 // Done sets a single index as done.
